@@ -186,8 +186,8 @@ theorem unreachable_bootstrap_ends_partial (q : IterQuery) (sock : Inflight) (hi
     honest network of at most 20 nodes, a lookup that ends closed has queried every node reachable,
     through the servers' answers, from any address it queried — every server, when the knows-graph
     is strongly connected and the lookup queried at least one of them.  `_partial`: the statement is
-    about the lookup's operations (`C07.lrun`); that the actor applies exactly those operations is
-    the correspondence check's job, and loss-free delivery is a hypothesis. -/
+    about the lookup's operations (`C07.lrun`), which are exactly what the model actor applies to its
+    lookups (`C07.step_iter`, `C07.node_lookup_closure`); loss-free delivery is a hypothesis. -/
 theorem upto20_every_reachable_server_queried_partial (U : Id → Addr → Prop) (hU : C07.Honest U) (univ : List Id)
     (huniv : ∀ i a, U i a → i ∈ univ) (hsmall : univ.length ≤ Constants.K)
     (q0 : IterQuery) (h0 : C07.CandOk U q0) (ops : List C07.LOp) (hops : C07.AllIn U (C07.listed ops))
